@@ -4,8 +4,9 @@ use vcommon::sched::run_one;
 
 fn main() {
     if std::env::var("PROBE_LOG").is_ok() { tracing_subscriber::fmt().with_max_level(tracing::Level::TRACE).without_time().with_target(false).init(); }
-    let script = sequential(&[vec![act(&["@upd{k:1,v:1}", "@upd{k:2,v:2}", "@upd{k:3,v:3}", "@upd{k:4,v:4}"])], vec![sync("m")]]);
-    let mut cfg = Cfg::basic(script, 2);
+    let script = sequential(&[vec![link("v"), cmd("v", "1"), cmd("v", "2"), sync("v"), cmd("v", "3")]]);
+    let mut cfg = Cfg::basic(script, 1);
+    cfg.store = StoreMode::Recording;
     let args: Vec<String> = std::env::args().collect();
     if args.len() > 1 { cfg.cap = args[1].parse().unwrap(); }
     if args.len() > 2 { cfg.budget = args[2].parse().unwrap(); }
